@@ -580,7 +580,7 @@ def c16(tier, seed):
                 ("c16-sl-ring", dict(Stateful=False, MaxSend=1, Depth=2, BadBudget=0, SetBudget=0, SmallBufs=True,
                                      backends="mix-sample"))]
     else:
-        cfgs = [("c16-sl", dict(Stateful=False, MaxSend=2, Depth=4, BadBudget=1, SetBudget=0, SmallBufs=True, BigBudget=1)),
+        cfgs = [("c16-sl", dict(Stateful=False, MaxSend=2, Depth=3, BadBudget=1, SetBudget=0, SmallBufs=True, BigBudget=1)),
                 ("c16-sl-top", dict(Stateful=False, NonceMode="top", MaxSend=2, Depth=4, BadBudget=0, SetBudget=0)),
                 ("c16-sl-ring", dict(Stateful=False, MaxSend=2, Depth=3, BadBudget=0, SetBudget=0, SmallBufs=True,
                                      backends="mix")),
